@@ -357,3 +357,14 @@ def f11_methodcall_more_than_15_plain_args(case, bucket, detail):
     if not isinstance(case, dict) or "method" not in case or not (bucket.startswith("run-failed:LIMIT") or bucket.startswith("callee-view")):
         return False
     return sum(1 for p in case["method"]["params"] if p["k"] != "txn") > 15
+
+
+@predicate("f12_router_recompiled_on_same_object")
+def f12_router_recompiled_on_same_object(case, bucket, detail):
+    """F12: calling Router.compile_program a second time on the same router object renumbers scratch slots / labels
+    (first and second output differ although both are valid). Input side: the target is a router and the differing
+    compilation is a repeated one on the same object."""
+    if bucket not in ("recompile-differs", "in-process:router-recompile-differs") or not isinstance(case, dict):
+        return False
+    t = case.get("target", {})
+    return t.get("item", {}).get("k") == "router"
